@@ -629,3 +629,51 @@ pub fn first_param_may_not_self(typ: &LuaType) -> bool {
     }
     false
 }
+
+#[cfg(feature = "verif-hooks")]
+impl LuaTypeIndex {
+    /// verif hook H1: entry counts of every map of this index
+    pub fn verif_sizes(&self, out: &mut Vec<(String, usize)>) {
+        out.push(("type.file_namespace".into(), self.file_namespace.len()));
+        out.push(("type.file_using_namespace".into(), self.file_using_namespace.len()));
+        out.push(("type.file_types".into(), self.file_types.len()));
+        out.push((
+            "type.file_types.sum".into(),
+            self.file_types.values().map(|v| v.len()).sum(),
+        ));
+        out.push(("type.full_name_type_map".into(), self.full_name_type_map.len()));
+        out.push((
+            "type.full_name_type_map.locations.sum".into(),
+            self.full_name_type_map
+                .values()
+                .map(|d| d.get_locations().len())
+                .sum(),
+        ));
+        out.push(("type.generic_params".into(), self.generic_params.len()));
+        out.push(("type.supers".into(), self.supers.len()));
+        out.push((
+            "type.supers.sum".into(),
+            self.supers.values().map(|v| v.len()).sum(),
+        ));
+        out.push(("type.types".into(), self.types.len()));
+        out.push(("type.in_filed_type_owner".into(), self.in_filed_type_owner.len()));
+        out.push((
+            "type.in_filed_type_owner.sum".into(),
+            self.in_filed_type_owner.values().map(|v| v.len()).sum(),
+        ));
+        out.push(("type.global_name_type_map".into(), self.global_name_type_map.len()));
+        out.push((
+            "type.internal_name_type_map".into(),
+            self.internal_name_type_map.len(),
+        ));
+        out.push((
+            "type.internal_name_type_map.sum".into(),
+            self.internal_name_type_map.values().map(|m| m.len()).sum(),
+        ));
+        out.push(("type.local_name_type_map".into(), self.local_name_type_map.len()));
+        out.push((
+            "type.local_name_type_map.sum".into(),
+            self.local_name_type_map.values().map(|m| m.len()).sum(),
+        ));
+    }
+}
